@@ -19,7 +19,12 @@ for m in "${muts[@]}"; do
     VERIF_MUTANT=$m .build/ovgen -group none -out "$O" >/dev/null || { echo "$name BROKEN (mutant does not apply)"; rc=2; continue; }
     pkgs=$(jq -r '.edits[].file' "$m" | xargs -n1 dirname | sort -u | sed 's#^#./#')
     runflag=$(jq -r '.repo_test_run // ""' "$m")
-    runtests() { (cd /repo && timeout 1500 go test -overlay "$O/overlay.json" -vet=off -count=1 ${runflag:+-run "$runflag"} -skip 'TestErrMissingSignatureRecreateDB|TestIsWritable|TestServiceNewAddresses' $pkgs >"$O/test.log" 2>&1); }
+    # gnet's tests bind fixed ports: run them in a private network namespace so that concurrent selftests cannot collide
+    ns=""; case "$pkgs" in *daemon/gnet*) ns="unshare -n sh -c" ;; esac
+    runtests() {
+      local cmd="timeout 1500 go test -overlay $O/overlay.json -vet=off -count=1 ${runflag:+-run '$runflag'} -skip 'TestErrMissingSignatureRecreateDB|TestIsWritable|TestServiceNewAddresses' $(echo $pkgs)"
+      if [ -n "$ns" ]; then (cd /repo && unshare -n sh -c "ip link set lo up && $cmd" >"$O/test.log" 2>&1); else (cd /repo && sh -c "$cmd" >"$O/test.log" 2>&1); fi
+    }
     # a few repository tests are flaky without any change (transaction TestCreate, pex TestPexAddPeers): a failure must repeat 3 times
     if ! runtests && ! runtests && ! runtests; then
       echo "$name TESTS-CATCH-IT (see $O/test.log)"; rc=3; continue
